@@ -16,8 +16,10 @@ if [ -f "$dir/demo.py" ]; then
   ( cd "$wt" && TYPHON_TREE="$wt" PYTHONPATH="$wt" timeout 600 /venv/bin/python -W ignore "$dir/demo.py" > "$wt.demo_patched.log" 2>&1 ); echo "demo on patched tree: rc=$? (want 1): $(tail -2 "$wt.demo_patched.log" | tr '\n' ' ' | cut -c1-300)"
 fi
 VERIF_REPO="$wt" "$verif/tools/baseline.sh" | tail -3
-( cd "$verif" && mkdir -p build/evidence_scratch && VERIF_EVIDENCE="$verif/build/evidence_scratch" VERIF_REPO="$wt" timeout 3000 ./check "$prop" "$tier" > "$verif/build/logs/seed_${prop}_$(basename "$dir").log" 2>&1 ); rc=$?
+priv="$verif/build/seedrun_${prop}_$$"; mkdir -p "$priv"; cp -r "$verif/coq" "$priv/coq"
+( cd "$verif" && VERIF_BUILD="$priv" VERIF_COQ="$priv/coq" VERIF_EVIDENCE="$priv/evidence" VERIF_REPO="$wt" timeout 3000 ./check "$prop" "$tier" > "$verif/build/logs/seed_${prop}_$(basename "$dir").log" 2>&1 ); rc=$?
 echo "check $prop $tier on patched tree: rc=$rc (want 1)"
 grep -E "VIOLATION|KNOWN|->" "$verif/build/logs/seed_${prop}_$(basename "$dir").log" | cut -c1-400 | head -8
+rm -rf "$priv"
 rm -f "$wt".demo_*.log
 exit 0
